@@ -259,3 +259,29 @@ pub fn value_with_units(rng: &mut Rng, units: usize) -> usize {
         },
     }
 }
+
+//-----------------------------------------------------------------------------
+
+// An iterator over `items` whose size_hint() is honest but not exact: `kind` selects how loose. The library takes
+// iterators in many places (FromIterator, Extend, try_from_iter); what it may rely on is the contract of size_hint
+// (lower <= remaining <= upper), never exactness.
+#[derive(Clone, Debug)]
+pub struct Hinted<T: Copy> { items: Vec<T>, pos: usize, kind: usize }
+
+pub fn hinted<T: Copy>(items: &[T], kind: usize) -> Hinted<T> { Hinted { items: items.to_vec(), pos: 0, kind: kind % 6 } }
+
+impl<T: Copy> Iterator for Hinted<T> {
+    type Item = T;
+    fn next(&mut self) -> Option<T> { let r = self.items.get(self.pos).copied(); if r.is_some() { self.pos += 1; } r }
+    fn size_hint(&self) -> (usize, Option<usize>) {
+        let rem = self.items.len() - self.pos;
+        match self.kind {
+            0 => (rem, Some(rem)),                                  // exact
+            1 => (0, Some(rem)),                                    // like filter()
+            2 => (rem / 2, Some(rem + rem / 2 + 3)),                // loose on both sides
+            3 => (0, None),                                         // knows nothing
+            4 => (rem.saturating_sub(1), Some(rem.saturating_add(64))), // almost exact
+            _ => (rem, None),                                       // lower bound only
+        }
+    }
+}
